@@ -16,7 +16,7 @@ LEVEL = "exploration"
 RULE = (
     "base instants = boundary grid (h x m x s x ms, < 24h) x sub-millisecond offsets {0,1,999}us + carry "
     "neighbourhoods + the fractional float instants the SCC reader produces; x durations x all 25 gap shapes between 3 "
-    "captions (touch, +1us, +1ms, far, identical) x writers x option variants. distinct = distinct (writer, options, "
+    "captions (touch, +1us, +1ms, far, identical, identical to the first) x writers x option variants. distinct = distinct (writer, options, "
     "caption times); non-trivial = every case (each has 3 timed captions)"
 )
 ASSUMPTIONS = [
@@ -37,7 +37,7 @@ S = [0, 1, 59]
 MS = [0, 1, 9, 10, 99, 100, 999]
 SUB = [0, 1, 999]
 DURS = [1000000, 1500999, 0]
-GAPS = ["touch", "+1us", "+1ms", "far", "same"]
+GAPS = ["touch", "+1us", "+1ms", "far", "same", "first"]
 WRITERS = ["SRTWriter", "WebVTTWriter", "MicroDVDWriter", "DFXPWriter", "SinglePositioningDFXPWriter", "LegacyDFXPWriter", "SAMIWriter"]
 SLOW = {"DFXPWriter", "SinglePositioningDFXPWriter", "LegacyDFXPWriter", "SAMIWriter"}
 
@@ -96,6 +96,9 @@ def times_for(t, d, g1, g2):
         ps, pe = caps[-1]
         if g == "same":
             caps.append((ps, pe))
+            continue
+        if g == "first":
+            caps.append(caps[0])  # the first caption's timespan comes back (non-adjacent when a different one is between)
             continue
         if g == "touch":
             ns = pe
@@ -283,7 +286,7 @@ def reuse_items():
         for w in WRITERS:
             opts = opts_for(w)
             times = times_for(t, DURS[i % 3], GAPS[i % 5], GAPS[(i // 5) % 5])
-            if times[-1][1] < 86400000000:
+            if max(e for _, e in times) < 86400000000:
                 items.append((w, opts[i % len(opts)], times, i % 4 == 0))
     return items
 
@@ -315,8 +318,10 @@ def cases_for(d):
                     n += 1
                     if n % d["nparts"] != d["part"]:
                         continue
+                    if g1 == "first":
+                        continue  # "first" is only meaningful for the third caption (A, B, A)
                     times = times_for(t, dur, g1, g2)
-                    if times[-1][1] >= 86400000000:
+                    if max(e for _, e in times) >= 86400000000:
                         continue
                     yield times, (g1 == "far" and g2 == "touch")
 
